@@ -23,7 +23,7 @@ ID = "C06"
 LEVEL = "exploration"
 TECHNIQUE = "exhaustive enumeration of a schedule lattice plus all boundary-aligned points (every lattice direction x every constraint x tolerance offsets) on constraint templates x registration orders x tolerance pairs; cmath phasor oracle vs the three real checkers"
 RULE = (
-    "templates (single-phase positive, delta-wye mixed-sign, same-phase mixed-sign, fractional, unconstrained) x 2 registration orders x 4 tolerance pairs; "
+    "templates (single-phase positive, delta-wye mixed-sign, same-phase mixed-sign, fractional, unconstrained) x 2 registration orders x 6 tolerance pairs (incl. explicit 0 tolerances); "
     "schedules: {0,8,16,32}^3 and, for every lattice direction d and constraint j, lambda*d with |I_j|=limit+f*tol, f in {-3,.5,.9,1.1,2,10}, each also embedded in 2- and 3-period schedules; "
     "non-trivial = point within 10 tolerances of some constraint boundary"
 )
@@ -50,7 +50,13 @@ TEMPLATES = {
     "none": {"angles": [30, -90, 150], "cons": []},
 }
 ORDERS = [["PS-A", "PS-B", "PS-C"], ["PS-C", "PS-A", "PS-B"]]
-TOLS = [(1e-5, 1e-7), (1e-3, 1e-7), (1e-5, 1e-4), (1e-3, 1e-4)]
+TOLS = [(1e-5, 1e-7), (1e-3, 1e-7), (1e-5, 1e-4), (1e-3, 1e-4), (0.0, 0.0), (0.0, 1e-4)]
+
+
+def probe_scale(tj, lim):
+    """distance unit for boundary probes: the tolerance itself, or 1e-6 of the limit when an explicit tolerance of 0 is asked for"""
+    return tj if tj > 0 else 1e-6 * lim
+
 LATTICE = (0.0, 8.0, 16.0, 32.0)
 FS = (-3, 0.5, 0.9, 1.1, 2, 10)
 
@@ -92,7 +98,7 @@ def oracle(tname, cols, tol):
             m = abs(I(tname, j, x))
             if m > lim + tj:
                 feas = False
-            near = min(near, abs(m - (lim + tj)) / tj)
+            near = min(near, abs(m - (lim + tj)) / probe_scale(tj, lim))
     return feas, near
 
 
@@ -123,7 +129,7 @@ def points(tname, tol):
                 continue
             tj = max(tol[0], tol[1] * lim)
             for f in FS:
-                lam = (lim + f * tj) / m
+                lam = (lim + tj + (f - 1) * probe_scale(tj, lim)) / m
                 pts.append(("bnd%d:%s" % (j, f), {st: lam * d[st] for st in ST}))
     return pts
 
@@ -134,7 +140,10 @@ def space(tier, seed):
         for oi in range(len(ORDERS)):
             for ti in range(len(TOLS)):
                 for mode in (1, 2, 3):  # periods per schedule
-                    items.append({"tpl": tname, "order": oi, "tol": ti, "T": mode})
+                    it = {"tpl": tname, "order": oi, "tol": ti, "T": mode}
+                    if 0.0 in TOLS[ti]:
+                        it["nettol"] = 3
+                    items.append(it)
     items.append({"tpl": "none", "order": 0, "tol": 0, "T": 0, "algos": True})
     for tname in ("deltawye", "single", "fractional"):
         for oi in range(len(ORDERS)):
@@ -149,7 +158,9 @@ def embed(col, T, pos, filler):
     return cols
 
 
-def check_point(tname, order, tol, net, iface, cols, viol, tag):
+def check_point(tname, order, tol, net, iface, cols, viol, tag, net_tol=None):
+    """tol: the tolerances passed explicitly; net_tol: the tolerances the network itself carries (default: the same)"""
+    net_tol = net_tol or tol
     T = len(cols)
     M = np.array([[c[st] for c in cols] for st in order])
     d_full = {st: [c[st] for c in cols] for st in order}
@@ -164,7 +175,8 @@ def check_point(tname, order, tol, net, iface, cols, viol, tag):
     got_a1 = bool(infrastructure_constraints_feasible(M[:, 0], info, violation_tolerance=tol[0], relative_tolerance=tol[1])) if T == 1 else None
     if got_n != exp:
         viol.append(("phase-aware:network-vs-definition", "%s: network.is_feasible=%s, phasor definition says %s (%.3g tol from boundary)" % (tag, got_n, exp, near), ctx, got_n, exp))
-    if got_n_default != exp:
+    exp_d, near_d = (exp, near) if net_tol == tol else oracle(tname, cols, net_tol)
+    if near_d >= 0.1 and got_n_default != exp_d:
         viol.append(("phase-aware:network-default-tolerances", "%s: network.is_feasible with the network's own tolerances=%s, definition %s" % (tag, got_n_default, exp), ctx, got_n_default, exp))
     if got_a != exp:
         viol.append(("phase-aware:algorithm-vs-definition", "%s: infrastructure_constraints_feasible=%s, definition %s" % (tag, got_a, exp), ctx, got_a, exp))
@@ -185,7 +197,7 @@ def check_point(tname, order, tol, net, iface, cols, viol, tag):
         if got_i != exp:
             viol.append(("phase-aware:interface-vs-definition", "%s: Interface.is_feasible(keys %s)=%s, definition %s" % (tag, list(dd), got_i, exp), ctx, got_i, exp))
             break
-    if bool(iface.is_feasible(variants[0])) != exp:
+    if near_d >= 0.1 and bool(iface.is_feasible(variants[0])) != exp_d:
         viol.append(("phase-aware:interface-default-tolerances", "%s: Interface.is_feasible with default tolerances != definition" % tag, ctx, None, exp))
     # ---- linear relaxation: conservative, and the three agree ---------------------
     ln = bool(net.is_feasible(M, linear=True, violation_tolerance=tol[0], relative_tolerance=tol[1]))
@@ -208,7 +220,7 @@ def _lin_margin(tname, cols, tol):
         tj = max(tol[0], tol[1] * lim)
         for x in cols:
             for m in (sum(abs(a) * x[st] for st, a in coefs.items()), abs(sum(a * x[st] for st, a in coefs.items()))):
-                near = min(near, abs(m - (lim + tj)) / tj)
+                near = min(near, abs(m - (lim + tj)) / probe_scale(tj, lim))
     return near
 
 
@@ -300,7 +312,9 @@ def execute(item, acc=None, only=None):
         run_algos(a)
         return [(v["signature"], v["what"], v["scenario"], v["observed"], v["expected"]) for v in a.violations] if acc is None else []
     tname, order, tol, T = item["tpl"], ORDERS[item["order"]], TOLS[item["tol"]], item["T"]
-    net, iface = build(tname, order, tol)
+    # explicit zero tolerances are asked of a network that itself carries LARGER ones (an explicit 0 is not "not given")
+    net_tol = TOLS[item["nettol"]] if item.get("nettol") is not None else tol
+    net, iface = build(tname, order, net_tol)
     zero = {st: 0.0 for st in ST}
     pts = points(tname, tol)
     if not TEMPLATES[tname]["cons"]:
@@ -318,12 +332,16 @@ def execute(item, acc=None, only=None):
             # several loaded periods at once: the same column in every period, and a 0.7-scaled neighbour
             combos.append((0, dict(col)))
             combos.append((T - 1, {st: 0.7 * v for st, v in col.items()}))
+            # the same total current moved between the stations from one period to the next (equal column sums)
+            rot = {ST[i]: col[ST[(i + 1) % 3]] for i in range(3)}
+            combos.append((T - 1, rot))
+            combos.append((0, rot))
         for pos, filler in combos:
             cols = embed(col, T, pos, filler)
             if only is not None and cols != only:
                 continue
             try:
-                exp, near = check_point(tname, order, tol, net, iface, cols, viol, tag)
+                exp, near = check_point(tname, order, tol, net, iface, cols, viol, tag, net_tol=net_tol)
             except Exception as exc:
                 guard(exc)
                 viol.append(("exception:%s" % type(exc).__name__, "checker raised %r" % exc, {"tpl": tname, "order": order, "tol": list(tol), "cols": cols}, repr(exc), None))
@@ -354,7 +372,7 @@ def replay(scn):
     if scn.get("hist"):
         return [{"signature": s, "what": w, "observed": o, "expected": e} for s, w, _, o, e in execute({k: scn[k] for k in ("tpl", "order", "tol", "T", "hist")})]
     only = scn.get("point", {}).get("cols")
-    item = {k: scn[k] for k in ("tpl", "order", "tol", "T")}
+    item = {k: scn[k] for k in ("tpl", "order", "tol", "T", "nettol") if k in scn}
     viol = execute(item, None, only=only)
     if not viol:
         # the verdict may depend on what the SAME Interface/network objects were asked before this point
